@@ -165,3 +165,44 @@ class CopiesDefaults:
         if options is None:
             options = dict(_DEFAULT_OPTIONS)
         self.options = options
+
+
+class _Derived:
+    """pattern F: a setter that also drops derived state, and a copy helper that bypasses it / goes through it"""
+
+    def __init__(self, values):
+        self._values = values
+        self._total = None
+
+    @property
+    def values(self):
+        return self._values
+
+    @values.setter
+    def values(self, values):
+        self._values = values
+        self._total = None
+
+    def total(self):
+        if self._total is None:
+            self._total = sum(self._values)
+        return self._total
+
+    def scaled_bypassing(self, c):
+        import copy
+        out = copy.copy(self)
+        out._values = [c * v for v in self._values]      # the memo of the old values survives
+        return out
+
+    def scaled_through_setter(self, c):
+        import copy
+        out = copy.copy(self)
+        out.values = [c * v for v in self._values]
+        return out
+
+    def scaled_resetting(self, c):
+        import copy
+        out = copy.copy(self)
+        out._values = [c * v for v in self._values]
+        out._total = None
+        return out
